@@ -22,6 +22,12 @@ CHECKS["C12"] = dict(
    text="TLC checks RoundTrip, RejectWrongType, ApisAgree, BothOkEqual and peek completeness for all envelopes over names (incl. ':' and non-UTF8, empty), types incl. unknown, seqid boundaries, 3 framings, 2 expected types, damaged requests and all peek segmentations; a config modelling a single-Read peek must violate ApisAgree (negative control). The envelopes are encoded by the real encoders and sent through DecodeRequest and ReadRequest under five reader kinds (seekable, whole, 1-byte, zero-length reads, random splits) with real responders; TLC judges exact bytes, echo and agreement.",
    note="Trusted: TLC, Json module, harness projection. Legacy envelopes with empty names are outside the property.")
 
+CHECKS["C13"] = dict(
+   level="model_checking", ref="DESIGN.md section 5 (C13)",
+   technique="TLA+ cost-annotated models (Reader.tla al/st, Envelope.tla, Frame.tla) model-checked by TLC over messages with inflated length fields (MCCost.tla, with negative control); the model's messages replayed on every real decoding API with measured allocation and source calls; judged by C13Trace.tla",
+   text="TLC checks alloc <= 12 MiB + 64 N and linear step counts for the models of all decoding APIs on ~650k short messages (struct bodies bare, strict/legacy enveloped, framed, and bodies shaped like the plugin/api types) in which every 4-byte window is overwritten by 2^16..2^32-1; a config that pre-allocates the legacy name must violate the bound. The same messages are run through 25 real APIs (Decode+force, stream decode, Skip seek/stream, DecodeEnveloped, DecodeRequest, ReadRequest, ReadEnvelopeBegin, frame.Reader, generated Decode/FromWire of 8 plugin/api types) in child processes under an address-space limit; TotalAlloc delta and source-call counts are judged by TLC.",
+   note="Trusted: TLC, Json module, runtime.MemStats. C=12 MiB covers the documented 10 MiB frame fast path and 1 MiB binary threshold. Wall time is never judged. Known finding C13-gen-stream-presize (generated streaming Decode).")
+
 NOT_YET = {}
 
 def main():
